@@ -35,6 +35,9 @@ func (s *Sys) execFault(op []string) string {
 	if op[0] == "import" {
 		return s.execFaultImport(atoi(op[1]))
 	}
+	if op[0] == "reopen" {
+		return s.execFaultReopen(op)
+	}
 	cold := false
 	if op[0] == "cold" {
 		cold = true
@@ -109,6 +112,8 @@ func (s *Sys) execFault(op []string) string {
 		}
 	}
 	injected := 0
+	var vkinds []string
+	firstViol, firstFault, firstGot := "", "", ""
 	for i := 1; i <= n; i++ {
 		r, _, inj, sys, kind := runOn(map[int]bool{i: true})
 		injected += inj
@@ -138,8 +143,24 @@ func (s *Sys) execFault(op []string) string {
 			}
 		}
 		if verdict != "" {
-			return fmt.Sprintf("fl(viol,op=%s,i=%d/%d,kind=%s,fault=%s,got=%s);%s", strings.Join(op, "_"), i, n, verdict, kind, firstLine(r), s.Exec(op))
+			seen := false
+			for _, k := range vkinds {
+				if k == verdict {
+					seen = true
+				}
+			}
+			if !seen {
+				if len(vkinds) == 0 {
+					firstViol = fmt.Sprintf("i=%d/%d", i, n)
+					firstFault, firstGot = kind, firstLine(r)
+				}
+				vkinds = append(vkinds, verdict)
+			}
 		}
+	}
+	if len(vkinds) > 0 {
+		// every position is explored; the result names every kind of symptom
+		return fmt.Sprintf("fl(viol,op=%s,%s,kind=%s,fault=%s,got=%s);%s", strings.Join(op, "_"), firstViol, strings.Join(vkinds, "+"), firstFault, firstGot, s.Exec(op))
 	}
 	return fmt.Sprintf("fl(ok,n=%d,inj=%d);%s", n, injected, s.Exec(op))
 }
@@ -248,4 +269,65 @@ func (s *Sys) execFaultImport(v int64) string {
 		return firstAborted
 	}
 	return fmt.Sprintf("fl(ok,n=%d,inj=%d);ok", n, injected)
+}
+
+// execFaultReopen: "fault reopen fast=true|false". A new tree object is opened (Load, which may
+// build or rebuild the fast index) on an image of the database with every single storage call
+// failing in turn. Verdict per position: Load reports an error, or everything the opened tree
+// serves (tree walk and index-served reads of every version and of the working tree) equals
+// what the fault-free open serves; and whatever Load reported, a later fault-free open of the
+// database left behind serves the same.
+func (s *Sys) execFaultReopen(op []string) string {
+	pre := snapshotDB(s.db)
+	fast := s.fastNow
+	if len(op) > 1 {
+		fast = op[1] == "fast=true"
+	}
+	runOn := func(failAt map[int]bool) (string, int, int, *dbm.MemDB, string) {
+		db := imageDB(pre, nil)
+		h := &hooks{failAt: failAt}
+		wdb := &wrapDB{inner: db, h: h}
+		t := iavl.NewMutableTree(wdb, s.cfg.Cache, !fast, iavl.NewNopLogger(), s.options()...)
+		_, err := t.Load()
+		n := h.calls
+		h.failAt = nil
+		if err != nil {
+			_ = t.Close()
+			return "err", n, h.failed, db, h.failKind
+		}
+		d := dumpTree(t).String()
+		_ = t.Close()
+		return d, n, h.failed, db, h.failKind
+	}
+	ref, n, _, _, _ := runOn(nil)
+	if ref == "err" {
+		return "fl(skip);" + s.Exec(op)
+	}
+	injected := 0
+	for i := 1; i <= n; i++ {
+		r, _, inj, db, kind := runOn(map[int]bool{i: true})
+		injected += inj
+		if inj == 0 {
+			continue
+		}
+		verdict := ""
+		if r != "err" && r != ref {
+			verdict = "wronganswer"
+		}
+		if verdict == "" {
+			t2, err := s.openOn(db, fast)
+			if err != nil {
+				verdict = "reopenerr"
+			} else {
+				if dumpTree(t2).String() != ref {
+					verdict = "reopenmixture"
+				}
+				_ = t2.Close()
+			}
+		}
+		if verdict != "" {
+			return fmt.Sprintf("fl(viol,op=reopen,i=%d/%d,kind=%s,fault=%s);%s", i, n, verdict, kind, s.Exec(op))
+		}
+	}
+	return fmt.Sprintf("fl(ok,n=%d,inj=%d);%s", n, injected, s.Exec(op))
 }
